@@ -37,7 +37,6 @@ Definition shape_agrees (c : case) : bool :=
   | Some (Some m) =>
       match c_tree c with
       | Some t => tree_eqb m t
-                  || match model_obj_fixed (c_b c) with Some o => tree_eqb (to_tree live_table o) t | None => false end
       | None => false
       end
   end.
